@@ -187,7 +187,8 @@ fn main() {
             let seed = j["seed"].as_u64().unwrap_or(1);
             let scratch = arg(&args, "--scratch").map(std::path::PathBuf::from).unwrap_or(scratch_default);
             std::fs::create_dir_all(&scratch).unwrap_or_else(|e| die(&format!("scratch dir: {}", e)));
-            let mut ctx = Ctx::new(static_id(&prop), seed, Tier::Quick, scratch.clone());
+            let tier = tier_of(j["tier"].as_str().unwrap_or("quick"));
+            let mut ctx = Ctx::new(static_id(&prop), seed, tier, scratch.clone());
             if args[1] == "replay" {
                 ctx::QUIET_PANICS.store(false, Ordering::Relaxed);
                 ctx.begin(j["unit"].as_u64().unwrap_or(0), j["sub"].as_u64().unwrap_or(0));
